@@ -296,6 +296,8 @@ class RF24:
             self.flush_rx()
         self.clear_status_flags()
         self.ce_pin = 1
+        # the STATUS byte shifted out while clearing the flags still shows the old flags
+        self.update()
         while not self._status & 0x30:
             self.update()
         result = bool(self._status & 0x20)
